@@ -44,6 +44,9 @@ var c08Archs = []c08Arch{
 	{Name: "chain01-spelling", Text: "  padded\nlink\n", Chain: true, Spell: "-chain01"},
 	// many include-except directives in one process (two such files resolve 18 of them)
 	{Name: "many-include-excepts", Text: strings.Repeat("##!> include-except helper2 helperx\n", 9) + "own\n"},
+	// line lists that read the same when printed without separators
+	{Name: "two-lines", Text: "union\nselect\n"},
+	{Name: "one-line-with-a-blank", Text: "union select\n"},
 	{Name: "chain0-spelling", Text: "  zero\noffset\n", Spell: "-chain0"},
 }
 
